@@ -206,8 +206,16 @@ func genOpen(w *World, cfg c02cfg) (body []byte, desc string) {
 	}
 	// extra capabilities
 	nx := w.Draw(5, "nextra")
+	if w.Chance(1, 12, "manycaps") {
+		nx = w.Range(20, 60, "nextramany") // many tiny capabilities
+	}
+	fill255 := shape < 3 && w.Chance(1, 6, "fill255")
 	for i := 0; i < nx; i++ {
-		c := Cap{Code: Pick(w, "xcode", byte(1), 2, 64, 69, 70, 128, 0, 255), Val: w.RandBytes(Pick(w, "xlen", 0, 4, 1, 8, 40), "xval")}
+		xl := Pick(w, "xlen", 0, 4, 1, 8, 40)
+		if nx > 5 {
+			xl = w.Draw(2, "xlentiny")
+		}
+		c := Cap{Code: Pick(w, "xcode", byte(1), 2, 64, 69, 70, 128, 0, 255), Val: w.RandBytes(xl, "xval")}
 		if w.Draw(2, "xpos") == 0 {
 			caps = append(caps, c)
 		} else {
@@ -291,6 +299,17 @@ func genOpen(w *World, cfg c02cfg) (body []byte, desc string) {
 			spec.OptLenOverride = -6
 		}
 	}
+	if fill255 && nmut == 0 && !split {
+		// pad with one unknown capability so that the optional parameters are exactly 255 bytes
+		total := 2
+		for _, c := range caps {
+			total += 2 + len(c.Val)
+		}
+		if pad := 255 - total - 2; pad >= 0 && pad <= 253 {
+			caps = append(caps, Cap{Code: 200, Val: w.RandBytes(pad, "pad255")})
+			notes = append(notes, "optional-parameters-exactly-255-bytes")
+		}
+	}
 	var ps []byte
 	if !dropCaps && len(caps) > 0 {
 		if split && len(caps) > 1 {
@@ -348,6 +367,10 @@ func runC02(w *World) {
 		c02cfg{70000, 70000, "192.0.2.1", "10.0.0.2"},
 		c02cfg{1, 23456, "10.0.0.9", "10.0.0.2"},
 		c02cfg{4200000000, 65002, "10.0.0.1", "1.1.1.1"},
+		c02cfg{65001, 1, "10.0.0.1", "0.0.0.1"},
+		c02cfg{65001, 65535, "10.0.0.1", "223.255.255.255"},
+		c02cfg{65001, 65536, "10.0.0.1", "240.0.0.1"},
+		c02cfg{65001, 4294967295, "10.0.0.1", "10.0.0.2"},
 	)
 	refuse := w.Chance(1, 8, "pluginrefuse")
 	var refusal *corebgp.Notification
